@@ -27,6 +27,12 @@ CLAIMS = {
         'constructor gate check_id_constraints with its loops unrolled twice.',
    note='Trusted as C01. Outside: JSON round trip, OrderedSet operations (C19), whole-document invariant beyond 2 entries per loop.',
    technique=TECH_M, ref='DESIGN.md section 2 C04'),
+ 'C05': dict(
+   text='M panic-reachability sweep: 46 parsing / decoding / validating entry points executed symbolically from MIR with callee results unconstrained; every MIR assert '
+        '(overflow, index, slice) and every unwrap/expect on a callee outcome is a panic outcome; reachable ones must be on the explicit contract list (each with the '
+        'obligation establishing it). Complements the precise panic-freedom obligations of C12 (status list) and the K range-gate harnesses of C13.',
+   note='Trusted as C01. Outside: panics inside non-inlined third-party callees (serde_json, did_url_parser, time, url, flate2, roaring), serde derives, SD-JWT VC.',
+   technique=TECH_M, ref='DESIGN.md section 2 C05'),
  'C06': dict(
    text='M: the legacy-format detector literal (read from the MIR) decided by z3 against the Base64Url text of every zlib default-compression stream (symbolic first deflate '
         'byte) and of its legacy double encoding; binding audit of the encode/decode pipeline, endpoint prefix handling, the document read-modify-write, the per-index '
